@@ -197,6 +197,9 @@ def check(ck: Checker) -> None:
     from .generic_lints import run_all as _lints
 
     _lints(ck, "C11.aliasing", "hashfile.transfer")
+    from .transfer_common import check_claimed_attempted
+
+    check_claimed_attempted(ck, m, "C11.absent-is-failed")
     from . import round4 as _r4
 
     _r4.index_memo_reset(ck, "C11.new")
